@@ -224,8 +224,18 @@ fn families(prop: Prop, b: &Bounds, thorough: bool, f: &mut dyn FnMut(&str, &Cfg
         gram::enum_fopt(&mut |g| f("fopt", g));
     }
     if matches!(prop, Prop::C05 | Prop::C08 | Prop::C16) {
-        enum_frec(b.s_rec, &mut |g| f("frec", g));
-        enum_frecx(&mut |g| f("frecx", g));
+        // each recovery grammar also with a second entry point: the tables of every entry point
+        // contain the start productions of all of them
+        let mut with_second_pub = |fam: &str, fam2: &str, g: &Cfg, f: &mut dyn FnMut(&str, &Cfg)| {
+            f(fam, g);
+            if g.nts >= 2 {
+                let mut g2 = g.clone();
+                g2.pubs = vec![0, 1];
+                f(fam2, &g2);
+            }
+        };
+        enum_frec(b.s_rec, &mut |g| with_second_pub("frec", "frec2", g, f));
+        enum_frecx(&mut |g| with_second_pub("frecx", "frecx2", g, f));
     }
 }
 
